@@ -491,3 +491,17 @@ Proof.
   intros s U. cbn [step]. rewrite U. unfold lose. destruct (fail_all _ _ _) as [e n] eqn:E. cbn.
   repeat split; auto. apply (fail_all_spec _ _ _ _ _ _ E).
 Qed.
+
+(** cancelling a call does not touch the dispatcher (its tag stays outstanding), and the result the
+    dispatcher eventually has for a cancelled call -- answer, error or loss reason -- is swallowed *)
+Lemma cancel_untouched : forall s c, mem c (follows s) = false ->
+  let s' := fst (step s (OCancel c)) in
+  outA s' = outA s /\ outB s' = outB s /\ cntA s' = cntA s /\ cntB s' = cntB s /\ chA s' = chA s /\ chB s' = chB s
+  /\ pending s' = pending s /\ up s' = up s /\ ncalls s' = ncalls s.
+Proof.
+  intros s c Hf. cbn [step]. destruct (mem c (cancelled s)); [cbn; repeat split; reflexivity|].
+  destruct (if mem c (map snd (outA s)) then Some false else if mem c (map snd (outB s)) then Some true else None);
+    [rewrite Hf|]; cbn; repeat split; reflexivity.
+Qed.
+Lemma cancelled_absorbs : forall s q c r, mem c (cancelled s) = true -> fire_result q c r s = (s, [EAbsorbed c r]).
+Proof. intros s q c r H. unfold fire_result. now rewrite H. Qed.
